@@ -734,6 +734,178 @@ fn run_query_case(ctx: &Ctx, w: &mut RWorld, qkind: &'static str, origin: u8, fa
     2
 }
 
+// ---------------------------------------------------------------------------------------------
+// the library's own accepting / failing modules, in every combination
+
+/// One combination of stock modules (custom, ibc, gov, stargate: each the accepting or the failing
+/// one of the library). Every message and query kind those modules serve, from top level and from
+/// typed / lifted contracts under every reply_on mode: the caller sees success exactly when the
+/// configured module is the accepting one; a failure aborts the transaction unless caught.
+fn stock_stage<CM, IB, GV, SG>(ctx: &Ctx, custom: CM, ibc: IB, gov: GV, sg: SG, accepts: [bool; 4]) -> u64
+where
+    CM: Module<ExecT = MyMsg, QueryT = MyQuery, SudoT = Empty>,
+    IB: Ibc,
+    GV: Gov,
+    SG: Stargate,
+{
+    let api = MockApi::default();
+    let user = api.addr_make("user").into_string();
+    let recipient = api.addr_make("recipient").into_string();
+    let ua = Addr::unchecked(&user);
+    let mut app = AppBuilder::new_custom()
+        .with_storage(SnapStorage::new())
+        .with_custom(custom)
+        .with_wasm(WasmKeeper::<MyMsg, MyQuery>::new())
+        .with_ibc(ibc)
+        .with_gov(gov)
+        .with_stargate(sg)
+        .build(|router, _, storage| {
+            router.bank.init_balance(storage, &ua, vec![coin(100, "x")]).unwrap();
+        });
+    let ct = app.store_code(typed_contract());
+    let cl = app.store_code(lifted_contract());
+    let typed = app.instantiate_contract(ct, ua.clone(), &Empty {}, &[], "typed", None).unwrap().into_string();
+    let lifted = app.instantiate_contract(cl, ua.clone(), &Empty {}, &[], "lifted", None).unwrap().into_string();
+    let callee = app.instantiate_contract(ct, ua.clone(), &Empty {}, &[], "callee", None).unwrap().into_string();
+    let genesis = app.storage().clone();
+    let accepts_of = |kind: &str| match kind {
+        "custom" => accepts[0],
+        "ibc" => accepts[1],
+        "gov" => accepts[2],
+        _ => accepts[3],
+    };
+    let combo = json!({"custom": if accepts[0] { "AcceptingModule" } else { "FailingModule" }, "ibc": if accepts[1] { "IbcAcceptingModule" } else { "IbcFailingModule" }, "gov": if accepts[2] { "GovAcceptingModule" } else { "GovFailingModule" }, "stargate": if accepts[3] { "StargateAccepting" } else { "StargateFailing" }});
+    let mut n = 0u64;
+    for kind in ["custom", "ibc", "gov", "stargate", "any"] {
+        for origin in 0..3u8 {
+            // Custom(Empty) from a lifted contract: the recorded known finding of the main stage
+            if kind == "custom" && origin == 2 {
+                continue;
+            }
+            let modes: Vec<u8> = if origin == 0 { vec![0] } else { vec![0, 1, 2, 3] };
+            for mode in modes {
+                *app.storage_mut() = genesis.clone();
+                LOG.with(|l| l.borrow_mut().clear());
+                SCRIPT.with(|s| *s.borrow_mut() = Script { kind: kind.into(), mode, callee: callee.clone(), recipient: recipient.clone(), ..Default::default() });
+                let emitter = match origin {
+                    0 => user.clone(),
+                    1 => typed.clone(),
+                    _ => lifted.clone(),
+                };
+                let case = || json!({"engine": "route-stock-modules", "modules": combo, "message_kind": kind, "origin": (["top-level", "typed contract", "lifted contract"][origin as usize]), "reply_on": (["never", "success", "error", "always"][mode as usize])});
+                let before = app.storage().data.clone();
+                let res = catch(|| match origin {
+                    0 => app.execute(ua.clone(), msg_of::<MyMsg>(kind, Some(MyMsg::Ping { n: 7 }), &callee, &recipient)),
+                    _ => app.execute_contract(ua.clone(), Addr::unchecked(&emitter), &Cmd { script: 0 }, &[]),
+                });
+                let logv: Vec<Rec> = LOG.with(|l| std::mem::take(&mut *l.borrow_mut()));
+                n += 1;
+                let res = match res {
+                    Ok(r) => r,
+                    Err(p) => {
+                        ctx.violation(&format!("c17:panic:stock-modules:{}", kind), json!({"case": case(), "panic": p}));
+                        continue;
+                    }
+                };
+                let accepting = accepts_of(kind);
+                let caught = origin != 0 && (mode == 2 || mode == 3);
+                let want_ok = accepting || caught;
+                if res.is_ok() != want_ok {
+                    ctx.violation(
+                        &format!("c17:stock-modules:{}", if want_ok { "accepting-module-not-seen" } else { "failing-module-not-seen" }),
+                        json!({"case": case(), "configured_module_accepts": accepting, "caught_by_reply_on": caught, "result": res.as_ref().map(|_| "Ok").map_err(|e| format!("{:#}", e))}),
+                    );
+                    continue;
+                }
+                if !want_ok {
+                    if app.storage().data != before {
+                        ctx.violation("c17:failed-module-left-state", json!({"case": case()}));
+                    }
+                } else if origin != 0 {
+                    let replies = logv.iter().filter(|r| r.module == "contract" && r.op == "reply").count();
+                    let want_reply = (!accepting && (mode == 2 || mode == 3)) || (accepting && (mode == 1 || mode == 3));
+                    if replies != want_reply as usize {
+                        ctx.violation("c17:reply-per-reply_on", json!({"case": case(), "replies": replies, "expected": want_reply}));
+                    }
+                    let has = |addr: &str, key: &[u8]| app.contract_storage(&Addr::unchecked(addr)).get(key).is_some();
+                    if !has(&emitter, b"own-write") || !has(&callee, b"late-write") {
+                        ctx.violation("c17:surrounding-effects-lost", json!({"case": case()}));
+                    }
+                }
+            }
+        }
+    }
+    for qkind in ["custom", "ibc", "stargate", "grpc"] {
+        for origin in 0..3u8 {
+            if qkind == "custom" && origin == 2 {
+                continue;
+            }
+            *app.storage_mut() = genesis.clone();
+            LOG.with(|l| l.borrow_mut().clear());
+            SCRIPT.with(|s| *s.borrow_mut() = Script { qkind: qkind.into(), callee: callee.clone(), recipient: recipient.clone(), ..Default::default() });
+            let case = || json!({"engine": "route-stock-modules", "modules": combo, "query_kind": qkind, "origin": (["top-level", "inside typed contract", "inside lifted contract"][origin as usize])});
+            let before = app.storage().data.clone();
+            let res: Result<String, String> = catch(|| match origin {
+                0 => {
+                    let rq = query_of::<MyQuery>(qkind, Some(MyQuery::Pong { n: 7 }), &callee, &recipient);
+                    format!("{:?}", app.raw_query(&cosmwasm_std::to_json_vec(&rq).unwrap()))
+                }
+                o => match app.execute_contract(ua.clone(), Addr::unchecked(if o == 1 { &typed } else { &lifted }), &Cmd { script: 5 }, &[]) {
+                    Ok(r) => String::from_utf8_lossy(&r.data.unwrap_or_default()).to_string(),
+                    Err(e) => format!("tx-error {:#}", e),
+                },
+            });
+            n += 1;
+            let res = match res {
+                Ok(r) => r,
+                Err(p) => {
+                    ctx.violation(&format!("c17:panic:stock-modules:{}-query", qkind), json!({"case": case(), "panic": p}));
+                    continue;
+                }
+            };
+            if origin == 0 && app.storage().data != before {
+                ctx.violation("c17:query-changed-state", json!({"case": case()}));
+            }
+            let accepting = accepts_of(if qkind == "grpc" { "stargate" } else { qkind });
+            if res.contains("Ok(Ok(") != accepting {
+                ctx.violation(&format!("c17:stock-modules:query-outcome:{}", qkind), json!({"case": case(), "configured_module_accepts": accepting, "answer": res}));
+            }
+        }
+    }
+    n
+}
+
+fn stock_modules(ctx: &Ctx) -> u64 {
+    use cw_multi_test::{AcceptingModule, FailingModule, GovAcceptingModule, GovFailingModule, IbcAcceptingModule, IbcFailingModule, StargateAccepting, StargateFailing};
+    let mut n = 0u64;
+    macro_rules! combo {
+        ($c:expr, $ca:expr, $i:expr, $ia:expr, $g:expr, $ga:expr, $s:expr, $sa:expr) => {
+            n += stock_stage(ctx, $c, $i, $g, $s, [$ca, $ia, $ga, $sa]);
+        };
+    }
+    macro_rules! with_sg {
+        ($c:expr, $ca:expr, $i:expr, $ia:expr, $g:expr, $ga:expr) => {
+            combo!($c, $ca, $i, $ia, $g, $ga, StargateAccepting, true);
+            combo!($c, $ca, $i, $ia, $g, $ga, StargateFailing, false);
+        };
+    }
+    macro_rules! with_gov {
+        ($c:expr, $ca:expr, $i:expr, $ia:expr) => {
+            with_sg!($c, $ca, $i, $ia, GovAcceptingModule::new(), true);
+            with_sg!($c, $ca, $i, $ia, GovFailingModule::new(), false);
+        };
+    }
+    macro_rules! with_ibc {
+        ($c:expr, $ca:expr) => {
+            with_gov!($c, $ca, IbcAcceptingModule::new(), true);
+            with_gov!($c, $ca, IbcFailingModule::new(), false);
+        };
+    }
+    with_ibc!(AcceptingModule::<MyMsg, MyQuery, Empty>::new(), true);
+    with_ibc!(FailingModule::<MyMsg, MyQuery, Empty>::new(), false);
+    n
+}
+
 fn cases(tier: Tier) -> Vec<Case> {
     let mut v = vec![];
     let masks: Vec<u32> = match tier {
@@ -793,12 +965,15 @@ pub fn run_c17(ctx: &Ctx) -> i32 {
             ch.iter().map(|(q, o, m)| run_query_case(ctx, &mut w, q, *o, *m)).sum::<u64>()
         })
         .sum();
-    let n = cs.len() + qcases.len();
+    let stock = stock_modules(ctx);
+    let n = cs.len() + qcases.len() + stock as usize;
     let coverage = json!({
         "states": n,
-        "transitions": evals + qevals,
+        "transitions": evals + qevals + stock,
         "traces_validated_against_impl": n,
-        "evaluations": evals + qevals,
+        "evaluations": evals + qevals + stock,
+        "stock_module_cases": stock,
+        "stock_module_combinations": "all 16 of {AcceptingModule | FailingModule} x {IbcAccepting | IbcFailing} x {GovAccepting | GovFailing} x {StargateAccepting | StargateFailing}; message kinds custom, ibc, gov, stargate, any and query kinds custom, ibc, stargate, grpc from top level, a typed and a lifted contract, every reply_on",
         "distinct_nontrivial": n,
         "rule": "one state = one configuration (which modules fail) x message/query kind x origin x reply_on x position, executed on an App built with recording modules; transitions = clauses checked (exactly one record in the configured module with true sender and unchanged payload, none elsewhere; caller sees the module's Ok/Err; failing module aborts the transaction unless caught; reply per reply_on; surrounding effects kept)",
         "exhaustive": true,
